@@ -149,6 +149,11 @@ class Hist(Scenario):
                 segp.append(p)
             else:
                 raise ValueError(op)
+        compare_result(ctx, sim, started, rows, segp, names, ss_seen)
+
+
+def compare_result(ctx, sim, started, rows, segp, names, ss_seen=False):
+    if True:
         # ---- final comparison of the accumulated result
         frames = sim.variables
         if not started:
